@@ -3,7 +3,8 @@
 (* All join trees with at most MaxNodes nodes (any shape and depth: single *)
 (* leaves, joins of one, nested joins), leaves numbered in depth-first     *)
 (* order; every tree is checked for every break position, and written out  *)
-(* for binding G (the driver rebuilds it with the real errors.Join).       *)
+(* for binding G (the driver rebuilds it with the real errors.Join); plus  *)
+(* a family of deep trees (nesting 7..65).                                 *)
 (***************************************************************************)
 EXTENDS ErrTree, Json, CSV, IOUtils
 
@@ -31,7 +32,20 @@ NumberSeq(ks, i, next) == IF i > Len(ks) THEN <<<<>>, next>>
                           ELSE LET h == Number(ks[i], next)  r == NumberSeq(ks, i + 1, h[2])
                                IN << <<h[1]>> \o r[1], r[2] >>
 
-AllTrees == UNION { { Number(s, 1)[1] : s \in Shapes(n) } : n \in 1..MaxNodes }
+\* DEEP trees, beyond what exhaustive enumeration reaches: chains of joins-of-one, left and right combs, and a comb whose
+\* innermost element is a bushy join - nesting depths around the sizes an explicit stack or a small array might have
+RECURSIVE Chain(_)
+Chain(d) == IF d = 0 THEN Leaf(0) ELSE Join(<<Chain(d - 1)>>)
+RECURSIVE CombR(_)
+CombR(d) == IF d = 0 THEN Join(<<Leaf(0), Leaf(0), Leaf(0)>>) ELSE Join(<<Leaf(0), CombR(d - 1)>>)
+RECURSIVE CombL(_)
+CombL(d) == IF d = 0 THEN Leaf(0) ELSE Join(<<CombL(d - 1), Leaf(0)>>)
+RECURSIVE CombM(_)
+CombM(d) == IF d = 0 THEN Leaf(0) ELSE Join(<<Leaf(0), CombM(d - 1), Leaf(0)>>)
+Depths == {7, 8, 9, 15, 16, 17, 31, 32, 33}
+DeepTrees == UNION { { Number(Chain(d), 1)[1], Number(CombR(d), 1)[1], Number(CombL(d), 1)[1], Number(CombM(d), 1)[1] } : d \in Depths }
+
+AllTrees == UNION { { Number(s, 1)[1] : s \in Shapes(n) } : n \in 1..MaxNodes } \cup DeepTrees
 
 VARIABLE tree
 Init == tree \in AllTrees
